@@ -340,6 +340,7 @@ func corpus() []string {
 		"(", ")", "()", "calc(1px)", "url(x)", "url(", "url(\"x\")", "url('x", "URL(javascript:alert(1))", "expression(alert(1))", "\"", "'", "\"x\"", "'x'", "\"x", "x\"", "\\", "\\;", "\\3b ", "\\00003b", "\\\n", "\\\"", "a\\", "/", "*", "//", "/*", "*/", "/**/", "/* x */", "a/b", "a*b", "**", "* /", "/ *", "/ /", "1/2", "*a", "/a", "a/", "a*",
 		"@", "@import", "@import 'x';", "!", "!important", "red !important", "<", ">", "</style>", "<!--", "-->", "<b>", "\n", "\r", "\f", "\t", " ", "  ", "a\nb", "a\tb", "red\n;color:blue", "\x00", "a\x00b", "\x7f", "\u0080", " ", " ", "é", "日本", "\xff", "\xc3", "a\xffb",
 		"javascript:alert(1)", "JaVaScRiPt:x", "java\tscript:x", "http://x/y.png", "https://e.com/a b.png", "/img.png", "x y", "a\"b", "a\\b", "a<b", "a) b(", "x\" ), url(\"//evil", "\\\") , url(//evil", "a b", "a&b", "&amp;", "a=b", "a?b#c", "data:image/png;base64,AAAA", "about:invalid#zGoSafez", "zGoSafezInvalidPropertyValue",
+		"\u212a", "\u017f", "a\u212ab", "ſans-serif", "\u212aelvin", "1\u212a", "\u0131", "\uff41", "10p\u212a",
 		"Arial", "sans-serif", "Times New Roman", "\"Times New Roman\"", "\"\"", "\"a\"", "\"", "a\"", "\"a", "\"a\"b\"", "-a", "a-", "a--b", "A", "ab", "a1", "1a", "a_b", "a.b", "a,b", "serif, x", "x;y", "x}y", "\\\"x\\\"", "<x>", "x\ny",
 	}
 	return cp
